@@ -200,7 +200,7 @@ pub fn run(ctx: &Ctx, evidence: Option<&PathBuf>) -> i32 {
             c.l.sample(pre.desc.clone());
         }
     };
-    ctx.run_fixed("bound-directed", 720, |c| bound_case(c, true));
+    ctx.run_fixed("bound-directed", ctx.dn(720), |c| bound_case(c, true));
     ctx.run_cases("bound", n, |c| bound_case(c, false));
 
     // ---- beyond the bound: information only + the never-wait invariant ------------------------------
